@@ -27,7 +27,7 @@ CLAIMS = {
          "7 C18", "distribution of w-mers over runs is left open by the property and compared only against the model.",
          "Coq proof (simulation + conservation invariant) + differential correspondence"),
 
- "C04": ("proof", "Theorems for every k in 1..=31 and every byte list over 4..255: the model's vector (pos_map / histogram as in the Rust) equals, column by column, the number of valid windows whose canonical form is that column's k-mer; entries sum to the window count; all-zero row without windows; invariance under reverse complement, lower case and U for T. The normalised entry is the binary64 quotient count / max(1,total) (Flocq model, compared bit for bit); it is proved (Flocq Bdiv_correct) to lie in [0,1] and hence to print as exactly 8 characters; the error bound of the printed 6 decimals relative to the exact quotient rests on the validated fmt6 model (partial).",
+ "C04": ("proof", "Theorems for every k in 1..=31 and every byte list over 4..255: the model's vector (pos_map / histogram as in the Rust) equals, column by column, the number of valid windows whose canonical form is that column's k-mer; entries sum to the window count; all-zero row without windows; invariance under reverse complement, lower case and U for T. The normalised entry is the binary64 quotient count / max(1,total) (Flocq model, compared bit for bit); it is proved (Flocq Bdiv_correct) to lie in [0,1] and hence to print as exactly 8 characters; and the printed text is proved to be the 6-decimal rendering of an n with |n/10^6 - count/max(1,total)| <= 0.5e-6 + 2^-53 (integer rounding of fmt6 plus Flocq's error_le_half_ulp for the one division); that fmt6 is what Rust's {:.6} prints is validated text-exact by the correspondence.",
          "7 C04", "Rust float formatting {:.6} is modelled (fmt6) and validated bit/text-exact, not verified; Python and CLI paths are covered by C13/C15.",
          "Coq proof (histogram = occurrence counts over the canonical columns, permutation/extensionality arguments) + differential correspondence incl. metamorphic respellings"),
  "C05": ("proof", "Theorems: the batch loop outputs header ++ rows in record order for EVERY memory limit; the mapped writer's schedule model puts row n into slot n for EVERY worker count and EVERY complete interleaving of TAKE/WRITE/EXIT steps; both writers agree; a header adds exactly one line. Tied to the code by the byte-identity matrix (threads x limits x writers x containers x delimiters), by controlled-scheduler replay through the cfg(kmertools_verif) hooks whose logged trace, write offsets and bytes must equal the model's, and by run-twice agreement on the implementation.",
@@ -36,7 +36,7 @@ CLAIMS = {
  "C07": ("proof", "Theorems: the rendered counts table of the partition/merge model equals the spec table for every n_parts >= 1 and every chunking; chunked counting under any schedule of CHECK/TAKE/INC/ADD/EXIT steps, any worker count and any limit counts every k-mer exactly as often as it occurs over all chunk passes; partition + per-partition merge yields exactly one line per distinct k-mer carrying the total, for every n_parts >= 1 and every chunking. Controlled-scheduler replay of count() through the hooks with trace validation (CHECK/TAKE/INC/ADD/EXIT, several chunk passes). Correspondence: kmers.counts (numeric and ACGT) and surviving temp files for ceilings giving 1..dozens of chunks/partitions, threads default/1..16, repetitive inputs.",
          "7 C07", "atomicity of scc entry and AtomicU64 assumed; a non-atomic get-then-insert shows only in free-running stress (partial); counts < 2^32.",
          "Coq proof (conservation invariant over all schedules; merge algebra) + differential correspondence on the merged table"),
- "C08": ("proof", "Theorems for every k in 1..=31, bin count >= 1, any table: the row has bin-count entries, entry b counts the valid windows whose canonical k-mer has multiplicity c with min(c / bin-size, bin-count - 1) = b (absent k-mers: bin 0), every window in exactly one bin; the vectors file of the model is one specified row per record in input order for every flush limit; the batch loop writes one row per record in order for every limit (after the D5 fix). Correspondence at record level (boundary multiplicities) and file level (alt input, flush per record / never, threads, trailing empty records).",
+ "C08": ("proof", "Theorems for every k in 1..=31, bin count >= 1, any table: the row has bin-count entries, entry b counts the valid windows whose canonical k-mer has multiplicity c with min(c / bin-size, bin-count - 1) = b (absent k-mers: bin 0), every window in exactly one bin; the normalised entry is printed correct to 6 decimals (same theorem as C04: |n/10^6 - count/max(1,total)| <= 0.5e-6 + 2^-53); the vectors file of the model is one specified row per record in input order for every flush limit; the batch loop writes one row per record in order for every limit (after the D5 fix). Correspondence at record level (boundary multiplicities) and file level (alt input, flush per record / never, threads, trailing empty records).",
          "7 C08", "(count as f64 / bin_size as f64).floor() modelled as integer division (assumed exact below 2^32, boundary values generated).",
          "Coq proof (histogram lemma, batch loop induction) + differential correspondence"),
  "C10": ("proof", "Theorems: for every worker count and every complete interleaving the emitted items (s2m lines; m2s pushes) are exactly all items as a multiset; the runs of a record are the spec runs of C09 over the effective window (w=0: whole record); both output files of the model equal the specified ones; the fused step the real workers take refines the model (replayed through the hooks with trace validation). Correspondence: both outputs as sets of lines (lists as multisets) against model and spec, and m2s = inversion of s2m on the implementation itself.",
